@@ -51,8 +51,48 @@ pub fn prob(code: u16) -> f32 {
         1 => 1.0,
         2 => 1.5,
         3 => 2.0,
+        // probabilities far below the resolution of one generator draw, and one just below 1
+        4 => 1e-9,
+        5 => 2e-8,
+        6 => 1e-6,
+        7 => 0.999_999,
         c => c as f32 / 65536.0,
     }
+}
+
+/// Chernoff bound for the upper tail of a sum of independent Bernoulli trials with mean `mu`:
+/// P(X >= x) <= exp(-mu) (e mu / x)^x for x > mu (1 otherwise).
+fn upper_tail_bound(mu: f64, x: u64) -> f64 {
+    if x == 0 || (x as f64) <= mu {
+        return 1.0;
+    }
+    let x = x as f64;
+    (-mu + x * (1.0 + (mu / x).ln())).exp()
+}
+
+/// "Follows the documented probabilities" between the deterministic corners: over the `n` independent opportunities
+/// of a case (seeded Xoroshiro draws) an action of probability `p` happened `x` times. A count that a correct agent
+/// reaches with probability below 1e-12 is a violation (20 000 such tests per run: false-alarm probability < 1e-7).
+/// The agent compares one f32 draw (24 bits) with p, so p is only resolved to 2^-24: both tails allow for that.
+/// `exact` = the count is exact (too FEW actions can be tested as well).
+fn activity_tail(p: f64, n: u64, x: u64, exact: bool) -> Option<String> {
+    const ALPHA: f64 = 1e-12;
+    let g = 2f64.powi(-24);
+    if !(p > 0.0 && p < 1.0) || n == 0 {
+        return None;
+    }
+    let up = upper_tail_bound(n as f64 * (p + g).min(1.0), x);
+    if up < ALPHA {
+        return Some(format!("probability {:e}, {} opportunities, happened {} times (a correct agent does so with probability < {:e})", p, n, x, up));
+    }
+    if exact {
+        let misses = n - x.min(n);
+        let dn = upper_tail_bound(n as f64 * ((1.0 - p) + g).min(1.0), misses);
+        if dn < ALPHA {
+            return Some(format!("probability {:e}, {} opportunities, did NOT happen {} times (a correct agent does so with probability < {:e})", p, n, misses, dn));
+        }
+    }
+    None
 }
 
 pub struct ScriptedRng {
@@ -240,6 +280,7 @@ const HARNESS_TRADER: u32 = 4_000_000_000;
 #[derive(Default, Clone, Debug)]
 pub struct AgentFeatures {
     pub audited_slots: u64,
+    pub stat_tests: u64,
     pub instructions: u64,
     pub limit_orders: u64,
     pub market_orders: u64,
@@ -292,6 +333,9 @@ fn run_agent_inner(c: &AgentCase, feat: &mut AgentFeatures) -> Result<(), Failur
     let mut last_of: std::collections::BTreeMap<u32, usize> = Default::default();
     let n_traders = ids.len();
     let (mut mom_m, mut mom_last): (f64, Option<f64>) = (0.0, None);
+    // statistics for the probabilities strictly between 0 and 1 (seeded generators only)
+    let seeded = matches!(c.rng, RngSpec::Seed(_));
+    let (mut opportunities, mut n_limit, mut n_market, mut n_actions) = (0u64, 0u64, 0u64, 0u64);
 
     for step in 0..c.steps as usize {
         // occasional harness quote (moves the touch under the agent)
@@ -438,6 +482,10 @@ fn run_agent_inner(c: &AgentCase, feat: &mut AgentFeatures) -> Result<(), Failur
         for o in new.iter() {
             last_of.insert(o.trader, o.id);
         }
+        opportunities += n_traders as u64;
+        n_limit += limit_by.values().map(|x| *x as u64).sum::<u64>();
+        n_market += market_by.values().map(|x| *x as u64).sum::<u64>();
+        n_actions += new.len() as u64;
         if matches!(c.spec, AgentSpec::Random { .. }) {
             // never more than one live (New or Active) order per trader
             for t in ids.iter() {
@@ -495,6 +543,7 @@ fn run_agent_inner(c: &AgentCase, feat: &mut AgentFeatures) -> Result<(), Failur
             if became_cancelled {
                 feat.cancels += 1;
                 feat.instructions += 1;
+                n_actions += 1;
                 if !own.contains(&y.id) || !ids.contains(&y.trader) {
                     return Err(fail("C16 agent cancelled an order that is not its own", step, format!("{:?}", y)));
                 }
@@ -520,6 +569,23 @@ fn run_agent_inner(c: &AgentCase, feat: &mut AgentFeatures) -> Result<(), Failur
             kinds |= 4;
         }
         feat.kinds = kinds;
+    }
+    if seeded {
+        let tests: Vec<(&str, f64, u64, bool)> = match &c.spec {
+            AgentSpec::Noise { p_limit, p_market, .. } => vec![("limit order", prob(*p_limit) as f64, n_limit, true), ("market order", prob(*p_market) as f64, n_market, true)],
+            // a random trader acts (places, or cancels its live order) with the activity rate; a cancellation that
+            // lost a race against a fill is not seen, so the count is a lower bound
+            AgentSpec::Random { activity, .. } => vec![("action", prob(*activity) as f64, n_actions, false)],
+            AgentSpec::Momentum { .. } => vec![],
+        };
+        for (what, p, x, exact) in tests {
+            if p > 0.0 && p < 1.0 {
+                feat.stat_tests += 1;
+            }
+            if let Some(m) = activity_tail(p, opportunities, x, exact) {
+                return Err(fail("C16 activity contradicts its documented probability", c.steps as usize, format!("{} of {} traders over {} updates: {}", what, n_traders, c.steps, m)));
+            }
+        }
     }
     Ok(())
 }
@@ -580,6 +646,7 @@ pub fn outcome_c16(c: &AgentCase) -> Outcome {
                     ("sell_price_clamped_to_top_of_grid", f.clamped_high),
                     ("momentum_updates_at_saturated_demand", f.momentum_saturated),
                     ("instruction_slots_audited", f.audited_slots),
+                    ("probability_tail_tests_between_0_and_1", f.stat_tests),
                     ("momentum_updates_on_imposed_paths", f.momentum_imposed_updates),
                 ],
                 result: res.err(),
@@ -593,7 +660,7 @@ pub fn outcome_c16(c: &AgentCase) -> Outcome {
 // generators
 
 fn prob_code() -> BoxedStrategy<u16> {
-    prop_oneof![2 => Just(0u16), 2 => Just(1u16), 1 => Just(2u16), 1 => Just(3u16), 6 => 4u16..=65535].boxed()
+    prop_oneof![2 => Just(0u16), 2 => Just(1u16), 1 => Just(2u16), 1 => Just(3u16), 1 => 4u16..=7, 6 => 8u16..=65535].boxed()
 }
 
 fn rng_spec() -> BoxedStrategy<RngSpec> {
@@ -651,7 +718,7 @@ pub fn parts_c16(tier: Tier) -> (Vec<Part<Case>>, String) {
     }
     (
         v,
-        "A case is one agent object (random / noise / momentum; single-asset on Env or multi-asset on MarketEnv<2,10>) with generated parameters (counts 0..50 and, in 5 % of the cases, up to 300 incl. 63..65, 127..129, 255..257 with fewer rounds; tick 1..10 shared with the environment, probabilities from {0, (0,1), 1, >1}, log-normal mu in [-2,6], sigma in [0,12] incl. the documentation's 10, volumes 1..10^4 and, in 6 % of the cases, volume ranges starting at 0 / a configured volume of 0), a starting book (empty / one-sided / two-sided), 1..200 update+step rounds driven by the harness, occasional harness quotes moving the touch, and a generator (Xoroshiro seeds incl. boundary seeds, or a scripted RngCore replaying generated words such as 0 and MAX before continuing with Xoroshiro). After each update every newly created order is checked (status New, agent's trader id, configured volume or range, on the grid, buy <= observed mid <= sell, random agents inside their tick range, at most one live order per trader, probability 0 => nothing, >= 1 => exactly once per trader); after the following step every order that became Cancelled must be the agent's own and have been Active when the agent looked, and p_cancel in {0, >=1} must be exact; a panic anywhere in the agent or environment is a violation. Non-trivial: >= 20 emitted instructions of >= 2 kinds on a two-sided book."
+        "A case is one agent object (random / noise / momentum; single-asset on Env or multi-asset on MarketEnv<2,10>) with generated parameters (counts 0..50 and, in 5 % of the cases, up to 300 incl. 63..65, 127..129, 255..257 with fewer rounds; tick 1..10 shared with the environment, probabilities from {0, (0,1), 1, >1}, log-normal mu in [-2,6], sigma in [0,12] incl. the documentation's 10, volumes 1..10^4 and, in 6 % of the cases, volume ranges starting at 0 / a configured volume of 0), a starting book (empty / one-sided / two-sided), 1..200 update+step rounds driven by the harness, occasional harness quotes moving the touch, and a generator (Xoroshiro seeds incl. boundary seeds, or a scripted RngCore replaying generated words such as 0 and MAX before continuing with Xoroshiro). After each update every newly created order is checked (status New, agent's trader id, configured volume or range, on the grid, buy <= observed mid <= sell, random agents inside their tick range, at most one live order per trader, probability 0 => nothing, >= 1 => exactly once per trader; for probabilities strictly between 0 and 1 - incl. 1e-9, 2e-8, 1e-6 and 0.999999 - the number of times the action happened over all opportunities of the case must not lie in a tail that a correct agent reaches with probability < 1e-12, exact Chernoff bound, seeded generators only); after the following step every order that became Cancelled must be the agent's own and have been Active when the agent looked, and p_cancel in {0, >=1} must be exact; a panic anywhere in the agent or environment is a violation. Non-trivial: >= 20 emitted instructions of >= 2 kinds on a two-sided book."
             .to_string(),
     )
 }
